@@ -72,6 +72,50 @@ def dry_keys(spec):
     return keys, bodies, uploads_bodies, ok
 
 
+def submission_keys(spec):
+    """Boundary keys of the transfer's SUBMISSION step (reached by the submission thread: on_queued, the size query, source reads and
+    hand-overs it does itself), from a dry run."""
+    s = copy.deepcopy(spec)
+    s['seed'] = 1
+    obs = e2e.run_any(s)
+    d = obs.world.director
+    keys = [k for k in dict.fromkeys(d.keys_seen)
+            if (d.key_stage.get(k) == 'submission' or any(m in k for m in ('/s3:HeadObject', '/cb:on_queued', '/fs:size')))
+            and '/cb:on_done' not in k and '/fs:remove' not in k and '/s3:AbortMultipartUpload' not in k]
+    ok = obs.hang is None and all(x.outcome == 'success' for x in obs.xfers)
+    scenario.cleanup(obs)
+    return keys if ok else []
+
+
+def base_in_submission_cases(rng, quick, family='base-in-submission'):
+    """A BaseException that is neither an Exception nor a KeyboardInterrupt (SystemExit from a callback, a framework's own
+    cancellation / timeout class) raised INSIDE THE SUBMISSION STEP: the one place that must make the transfer done whatever comes."""
+    out = []
+    for bi, base in enumerate(base_scenarios(rng)):
+        if base.get('executor'):
+            continue
+        keys = submission_keys(base)
+        for k in (keys if not quick else rng.sample(keys, min(2, len(keys)))):
+            for ex in (None, 'nonthreaded') if (not quick or rng.random() < 0.3) else (None,):
+                s = copy.deepcopy(base)
+                s['seed'] = rng.randrange(1 << 30)
+                s['family'] = family
+                if ex:
+                    s['executor'] = ex
+                s['plan'] = {'faults': [{'at': k, 'phase': 'before', 'kind': rng.choice(['base', 'base', 'systemexit', 'generatorexit']), 'tag': f'FAULT-bsub-{bi}'}]}
+                if not ex and rng.random() < 0.6:
+                    # requests already handed over are held back until everything else has run as far as it can: they are in flight
+                    # (about to send their bodies) when the submission step fails
+                    s['plan']['gate'] = {'match': '/s3:', 'phase': 'before', 'policy': 'seeded'}
+                    if s['transfers'][0]['kind'] == 'upload' and rng.random() < 0.7:
+                        # ... held between two reads of their request body by the transport
+                        s['plan']['gate']['match'] = '.send#'
+                        s['client'] = {'checksum': 'when_required', 'scheme': 'https'}
+                        s['body_read_sizes'] = [rng.choice([1, 3])]
+                out.append(s)
+    return out
+
+
 SERVICE_CODES = {
     'CompleteMultipartUpload': ['NoSuchUpload:404', 'InvalidPart:400', 'EntityTooSmall:400'],
     'UploadPart': ['NoSuchUpload:404'],
@@ -216,6 +260,7 @@ def gen_cases(tier, seed):
                 s['plan'] = {'faults': [{'at': k, 'phase': 'body', 'kind': kind, 'bytes': rng.choice([1, n // 2, n - 1]), 'tag': f'FAULT-{bi}-stream'},
                                         {'at': 't0/cb:on_progress_rewind:s0#0', 'phase': 'before', 'kind': rng.choice(['exc', 'oserror']), 'tag': f'FAULT-{bi}-rewind'}]}
                 cases.append(s)
+    cases += base_in_submission_cases(rng, quick)
     # BaseException family (not an Exception: KeyboardInterrupt / SystemExit-like) raised inside request-stage work
     for bi, base in enumerate(base_scenarios(rng)):
         t = base['transfers'][0]
